@@ -11,6 +11,11 @@ var modeOrder = []apd.Rounder{apd.RoundDown, apd.RoundHalfUp, apd.RoundHalfEven,
 	apd.RoundFloor, apd.RoundHalfDown, apd.RoundUp, apd.Round05Up}
 
 func (rn *runner) runOut(op string, c *apd.Context, x, y *apd.Decimal, iarg int32) string {
+	return rn.runOutPre(op, c, x, y, iarg, junk(rn.r))
+}
+
+// runOutPre runs op with the given destination pre-state (an undelivered outcome leaves it visible).
+func (rn *runner) runOutPre(op string, c *apd.Context, x, y *apd.Decimal, iarg int32, d *apd.Decimal) string {
 	def := ctxOps[op]
 	xc := new(apd.Decimal).Set(x)
 	var yc *apd.Decimal
@@ -18,7 +23,6 @@ func (rn *runner) runOut(op string, c *apd.Context, x, y *apd.Decimal, iarg int3
 		yc = new(apd.Decimal).Set(y)
 	}
 	cc := *c
-	d := junk(rn.r)
 	r, e, _ := def.run(&cc, d, xc, yc, iarg)
 	return fmt.Sprintf("%s %d %s", showDec(d), uint32(r), errKind(e, r, c.Traps))
 }
